@@ -1,8 +1,8 @@
 (* Props/C22.v — Panics in user code leave the database consistent and unblocked.
    Statements only.  Single-handle part, Core constructors (bodies with fault-injection
-   points [PanicIf]); LOW-durability histories (see C01 for the status of the general case). *)
+   points [PanicIf]); inputs and writes of every durability (see C01). *)
 From Salsa Require Import Base.
-From Salsa.Core Require Import Model Spec Inv InvTop.
+From Salsa.Core Require Import Model Spec Inv InvTop DInvTop.
 
 (* For every acyclic program, every history and every setting of the fault switches over
    time (the oracle): each Get either returns the from-scratch value of the current inputs,
@@ -14,6 +14,29 @@ From Salsa.Core Require Import Model Spec Inv InvTop.
    nothing of the interrupted computation is stored for the interrupted node), and every
    later Get -- in the same revision or a later one -- made while no switch is on returns
    exactly what a fresh database would return. *)
+Theorem C22_panic_safe :
+  forall (prog : qkey -> body) (noeq : qkey -> bool) (fams : list N)
+         (rank : qkey -> nat) (NF : nat),
+  calls_below prog rank -> (forall q, (rank q < NF)%nat) ->
+  forall fuel, (forall p, (rank p < fuel)%nat) ->
+  forall iv idur lru0 ops,
+    (forall i, idur i <= 3) -> Forall dur_op ops -> wf_ops false ops ->
+    outs_ok prog noeq fams NF fuel (init iv idur lru0) ops.
+Proof.
+  intros prog noeq fams rank NF Hrank Hbound.
+  exact (from_scratch_dur_init prog noeq fams rank Hrank NF Hbound).
+Qed.
+Check C22_panic_safe :
+  forall (prog : qkey -> body) (noeq : qkey -> bool) (fams : list N)
+         (rank : qkey -> nat) (NF : nat),
+  calls_below prog rank -> (forall q, (rank q < NF)%nat) ->
+  forall fuel, (forall p, (rank p < fuel)%nat) ->
+  forall iv idur lru0 ops,
+    (forall i, idur i <= 3) -> Forall dur_op ops -> wf_ops false ops ->
+    outs_ok prog noeq fams NF fuel (init iv idur lru0) ops.
+Print Assumptions C22_panic_safe.
+
+(* the earlier LOW-durability statement, now a corollary *)
 Theorem C22_panic_safe_partial :
   forall (prog : qkey -> body) (noeq : qkey -> bool) (fams : list N)
          (rank : qkey -> nat) (NF : nat),
@@ -23,9 +46,8 @@ Theorem C22_panic_safe_partial :
     Forall low_op ops -> wf_ops false ops ->
     outs_ok prog noeq fams NF fuel (init iv (fun _ => 0) lru0) ops.
 Proof.
-  intros prog noeq fams rank NF Hrank Hbound fuel Hfuel iv lru0 ops Hlow Hwf.
-  exact (from_scratch_low prog noeq fams rank Hrank NF Hbound fuel Hfuel ops false _ Hlow Hwf
-           (init_ok prog NF iv lru0)).
+  intros prog noeq fams rank NF Hrank Hbound.
+  exact (from_scratch_low_again prog noeq fams rank Hrank NF Hbound).
 Qed.
 Check C22_panic_safe_partial :
   forall (prog : qkey -> body) (noeq : qkey -> bool) (fams : list N)
